@@ -1,6 +1,6 @@
 SPECIFICATION Spec
 CONSTANTS
-  Scripts <- ScriptsFamilyNoCb
+  Scripts <- ScriptsFamily
   Variant = "fixed"
 INVARIANTS TypeOK Inv_C13
 CHECK_DEADLOCK FALSE
